@@ -124,6 +124,11 @@ func configure(g *gen) {
 				Value: "%t.1", T: tStrList},
 			{Callee: "$.stableRoutes[]", Value: "(env.stable s %1)", T: T{"opaque", "Option ρ"}},
 		}})
+	// rux.go: the method list as the API hands it out (`anyMethods` is the extracted fact)
+	amExt := []Ext{{Callee: "anyMethods", Value: "Rux.Facts.anyMethodsB", T: tStrList}}
+	add(FnSpec{Func: "AnyMethods", Lean: "AnyMethods", Exts: amExt})
+	add(FnSpec{Func: "AllMethods", Lean: "AllMethods", Exts: amExt})
+	add(FnSpec{Func: "MethodsString", Lean: "MethodsString", Exts: amExt})
 	// parse_match.go `Match`: QuickMatch on the upper-cased method (the state threading of QuickMatch is passed on)
 	add(FnSpec{Recv: "Router", Func: "Match", Lean: "Router.Match",
 		Extra:    []string{"{σ ρ π : Type}", "(env : GoRt.QMEnv σ ρ π)", "(s0 : σ)"},
